@@ -46,6 +46,8 @@ def cases(tier, cfg, seed):
                 if 'Piv' in st and n > (2 if tier == 'quick' else 3): continue
                 out.append(Solve(T, n, st))
             out.append(Solve(T, n, 'SimpleInv', 2)); out.append(Solve(T, n, 'SimpleLU', 3 if n > 1 else 2)); out.append(Solve(T, n, 'SimpleInv', 0, lazy=True))
+            if n in (2, 3) and (n == 2 or tier != 'quick' or T == 'double'):
+                for st in ('SimpleInvPiv', 'SimpleLUPiv', 'BlockLUPiv'): out.append(Solve(T, n, st, 2))
         for n in (() if tier == 'quick' else (5, 6, 7, 8)):
             out.append(Solve(T, n, 'SimpleLU')); out.append(Solve(T, n, 'BlockLU'))
         if tier != 'quick': out.append(Solve(T, 5, 'SimpleInv')); out.append(Solve(T, 6, 'SimpleLU', 2))
